@@ -151,5 +151,5 @@ TRUSTED_BASE = [
     "hand-written Gallina model of the torchtt code (coq/Model/*.v): tied to /repo only by the exact correspondence run of this check",
     "torch / numpy / LAPACK primitives, floating-point round-off, autograd tape, RNG: modelled (exact ring arithmetic on integer-valued data), not verified",
     "the Python harness (generators, canonicalisation to exact integers, Coq literal printer, result parser)",
-    "harness/translate.py (C01, C02): the fail-closed python-ast translator of torchtt/_decomposition.py:rank_chop, with the meaning it gives to the numpy idioms (coq/Translated/NumpyPrims.v; np.abs(s)**2 -> q, np.linalg.norm(s) == 0 -> sum q <= 0, eps**2 -> thr2, eps <= 0 -> not pos); what it emits is proved equal to the model on every run",
+    "harness/translate.py (C01, C02): the fail-closed python-ast translator of torchtt/_decomposition.py:rank_chop, with the meaning it gives to the numpy idioms (coq/Translated/NumpyPrims.v; np.abs(s)**2 -> q, np.linalg.norm(s) == 0 -> sum q <= 0, np.max(np.abs(s)) == 0 -> every q_i <= 0, eps**2 -> thr2, eps <= 0 -> not pos, s / smax and eps / smax after the early return on smax == 0 -> q and thr2 multiplied by one arbitrary positive factor c); what it emits is proved equal to the model on every run",
 ]
